@@ -291,7 +291,15 @@ def _devs_cases():
             r = map_exc(e)
         return (r, [back(e) for e in el._events])
 
-    return {"SimulationEvent.CANCELED": (lambda rng: {"self": ev(rng, 0)}, lambda a: real(a["self"]).CANCELED),
+    def gen_peek(rng):
+        a = gen_el(rng)
+        a["n"] = rng.choice([-1, 0, 1, 1, 2, 3, 5, 20])
+        return a
+
+    def call_peek(a):
+        return [back(e) for e in elist(a).peak_ahead(a["n"])]
+
+    return {"EventList.peak_ahead": (gen_peek, call_peek), "SimulationEvent.CANCELED": (lambda rng: {"self": ev(rng, 0)}, lambda a: real(a["self"]).CANCELED),
             "SimulationEvent.__lt__": (gen_pair, lambda a: real(a["self"]) < real(a["other"])),
             "EventList.add_event": (gen_el, call_add), "EventList.pop_event": (gen_el, call_pop),
             "EventList.__len__": (gen_el, lambda a: len(elist(a))), "EventList.is_empty": (gen_el, lambda a: elist(a).is_empty())}
